@@ -28,8 +28,9 @@ DEFAULT_TREE = {'k': 'c', 'cls': 'list', 'items': [{'k': 'int', 'i': 77}, {'k': 
 SLOW_EVERY = 1      # failing cases: verify() / matches() (two more full error paths) on every n-th case
 
 
-def run_case(pattern, tree, full=True):
-    """Run the real library on one case; returns the observation record."""
+def run_case(pattern, tree, full=True, shared=None):
+    """Run the real library on one case; returns the observation record.  shared: a Match object
+    that was used before (the glom() call goes through it instead of a fresh one)."""
     target = B.tree_py(tree)
     before = B.snapshot(target)
     ctx = B.Ctx()
@@ -38,7 +39,11 @@ def run_case(pattern, tree, full=True):
     def call(name, fn, **kw):
         spec, failed = B.build(pattern, ctx, wrap=lambda s: Match(s, **kw))
         obs[name] = failed if failed else B.observe(lambda: fn(spec))
-    call('glom', lambda m: glom.glom(target, m))
+    if shared is not None:
+        obs['glom'] = B.observe(lambda: glom.glom(target, shared))
+        obs['_target'] = target
+    else:
+        call('glom', lambda m: glom.glom(target, m))
     if full or obs['glom']['ok']:
         call('verify', lambda m: m.verify(target))
         call('matches', lambda m: m.matches(target))
@@ -137,8 +142,22 @@ def _worker(states):
 
 
 # ---- code -> spec -----------------------------------------------------------------------------
-def record_row(pattern, tree, how=''):
-    obs = run_case(pattern, tree)
+def record_seq(pattern, trees, how=''):
+    """ONE Match object used on the targets in sequence; after every use the caller mutates the
+    containers of the result.  Each use is a row of its own (a pattern object carries no memory)."""
+    m, failed = B.build(pattern, B.Ctx(), wrap=Match)
+    if failed:
+        return [record_row(pattern, t, how) for t in trees]
+    rows = []
+    for k, tree in enumerate(trees):
+        row = record_row(pattern, tree, how, shared=m)
+        row['nth_use'] = k + 1
+        rows.append(row)
+    return rows
+
+
+def record_row(pattern, tree, how='', shared=None):
+    obs = run_case(pattern, tree, shared=shared)
     cells, root = B.tree_cells(tree)
 
     def enc(ob):
@@ -154,6 +173,8 @@ def record_row(pattern, tree, how=''):
                         unchanged=obs['unchanged'],
                         typeerror=bool(not g['ok'] and g['is_type']),
                         matcherror=bool(not g['ok'] and g['is_match'])))
+    if shared is not None and g['ok']:
+        B.poison(g['res'], obs['_target'])          # (after the row was encoded)
     return row
 
 
@@ -162,11 +183,11 @@ def record(check, n, seed):
     inputs = []
     kinds = dict(conforming=0, mutated=0, unrelated=0)
     kinds['eqmix'] = 0
-    while len(inputs) < n:
+    while sum(len(i[1]) for i in inputs) < n:
         if rng.random() < 0.05:
             p, t = G.gen_eqmix(rng)
             kinds['eqmix'] += 1
-            inputs.append((p, t, 'eqmix'))
+            inputs.append((p, [t], 'eqmix'))
             continue
         p = G.gen_pattern(rng, rng.randint(1, 4))
         t = G.conforming(rng, p)
@@ -184,8 +205,16 @@ def record(check, n, seed):
                 t = G.rand_tree(rng, 2)
                 kind = 'unrelated'
         kinds[kind] += 1
-        inputs.append((p, t, kind))
-    rows = B.pmap(record_row, [(B.normalize(p), t, how) for p, t, how in inputs])
+        if rng.random() < 0.02:
+            t = {'k': 'grumpy'}                      # a target whose == raises on foreign operands
+        ts = [t]
+        if rng.random() < 0.2:                       # the same Match object on two or three targets in a row
+            ts += [G.mutate(rng, t) if rng.random() < 0.6 else G.rand_tree(rng, 2) for _ in range(rng.randint(1, 2))]
+            kinds['reused'] = kinds.get('reused', 0) + 1
+        if G.has_empty_alts(p):
+            ts = [G.plainify(x) for x in ts]         # (see assumptions: empty list / set pattern x falsy non-empty container)
+        inputs.append((p, ts, kind))
+    rows = [r for rs in B.pmap(record_seq, [(B.normalize(p), ts, how) for p, ts, how in inputs]) for r in rs][:n]
     rejects = vlib.validate_rows(check, 'Trace_C09', rows, 'random-patterns', chunk=4000)
     for row, rej in rejects:
         row['_rejected'] = True
@@ -243,7 +272,9 @@ MUTANTS = [('opt_default_always', ('Result', 'Unchanged', 'Decides')), ('dict_tr
            ('callable_some_exceptions', ('ErrClass',)),                  # whatever a callable raises is a rejection
            ('cmp_by_complement', ('Decides',)),                          # partial orders (sets): > is not "not <="
            ('default_aliased', ('Again',)),                              # Optional / Match defaults are built afresh
-           ('default_not_evaluated', ('Default', 'Result'))]             # defaults are argument values (T resolved)
+           ('default_not_evaluated', ('Default', 'Result')),             # defaults are argument values (T resolved)
+           # hardening: a truth test is not an emptiness test, isinstance is not an exact-type test, falsy defaults count
+           ('truthy_by_len', ('Decides',)), ('container_exact_type', ('Decides',)), ('falsy_default_missing', ('Decides', 'Default'))]
 
 
 
@@ -306,6 +337,9 @@ def main(tier, seed):
         'iterated, the documentation does not say which failure is reported: any of their classes is permitted; cases '
         'where that order decides between a GlomError and a foreign error are enumerated but not compared',
         'results are compared with == (the property says "equal"), not by class of the rebuilt containers',
+        'an empty list / set pattern is not paired with a non-empty container whose bool() is False (Match([]) on such '
+        'a list raises UnboundLocalError instead of MatchError: reported, decision pending); values whose == raises only '
+        'as whole targets; values == to everything not as dict keys / set elements',
         'defaults that are instances of dict / list subclasses (OrderedDict ...) are outside the universe: argument mode '
         'rebuilds exact builtin containers only, by design',
         'alternatives of set / frozenset patterns are hashable leaves; no floats, bytes or user classes',
